@@ -32,7 +32,7 @@ CHECKS = {
          "Trusted: refeval.rs store model. A vector is stored into itself only in one scripted operation whose reads return acyclic values.",
          "DESIGN.md §5 C03"),
  "C04": ("exhaustive small rule sets x small uses + random rule sets with uses derived from their own patterns and mutated; oracle: reference syntax-rules matcher/instantiator",
-         "Exploration, exhaustive for one-rule sets over a 6-element pattern alphabet (517 patterns x 497 uses incl. dotted ones and literal look-alikes), sampled two-rule sets, random larger rule sets, histories of up to 399 rejected nested uses on one thread followed by matching uses; the value of a use must be the reference instantiation of the first matching rule, a use matching no rule must be a MacroMissMatch error.",
+         "Exploration, exhaustive for one-rule sets over a 6-element pattern alphabet (517 patterns x 497 uses incl. dotted ones and literal look-alikes), sampled two-rule sets, random larger rule sets, sub-patterns nested up to 12 levels, histories of up to 399 rejected nested uses on one thread followed by matching uses; the value of a use must be the reference instantiation of the first matching rule, a use matching no rule must be a MacroMissMatch error.",
          "Trusted: refmacro.rs (appendix C of DESIGN.md, own unit tests). Class as fixed by the property: final ellipsis, depth 1, >= 1 item per ellipsis.",
          "DESIGN.md §5 C04"),
  "C05": ("exhaustive nesting family (every derived form in every sub-form position of every derived form) + random type-directed programs with ticking sub-forms against the reference evaluator's direct R7RS semantics",
@@ -56,7 +56,7 @@ CHECKS = {
          "Trusted: refeval.rs module model. Exported variables are constants or procedures (mutation of exported bindings is outside the property).",
          "DESIGN.md §5 C13"),
  "C14": ("exhaustive small-scope enumeration of dependency graphs x node statuses x import histories, libraries as files and as registered sources; oracle: graph reachability/cycle model + self-differential against a fresh interpreter; step/depth budget of hook H1 for termination",
-         "Exploration, exhaustive on 1-2 libraries (3 sampled in thorough): every graph, every status assignment, every history of <= 3 attempts (11 file statuses incl. a directory in place of the file; import declarations after a first body part); a library file that appears after an attempt that did not find it; each attempt's outcome class must be admitted by the graph, equal the outcome on a fresh interpreter and terminate; libraries must be found relative to the program directory.",
+         "Exploration, exhaustive on 1-2 libraries (3 sampled in thorough): every graph, every status assignment, every history of <= 3 attempts (12 file statuses incl. a directory in place of the file and a malformed form in a balanced body; import declarations after a first body part; half of the graphs imported into a program that already binds the names a faulty library claims to export); a library file that appears after an attempt that did not find it; each attempt's outcome class must be admitted by the graph, equal the outcome on a fresh interpreter and terminate; libraries must be found relative to the program directory.",
          "Trusted: the reachability model; temp directories under the system temp dir are created and removed by the run.",
          "DESIGN.md §5 C14"),
  "C15": ("the C08 fault programs rendered with random multi-line layouts whose token/form extents are recorded by the renderer; oracle: reported location inside the failing form / offending token; stray and missing parentheses for syntax locations",
@@ -72,7 +72,7 @@ CHECKS = {
          "Trusted: refeval.rs display model for the unambiguous printable subset; the binary is rebuilt from /repo by ./check.",
          "DESIGN.md §5 C17"),
  "C19": ("random program pairs over a shared name pool interleaved over two instances on one thread, extra instances created at random points; self-differential oracle (B alone in a fresh thread)",
-         "Exploration: 8000 (thorough 40000) program pairs (a third with scripted openings) with colliding variables, procedures, macro keywords (incl. bundled ones) and a library name registered with different contents per instance; B's per-form outcomes must not depend on A, instance creation must always succeed.",
+         "Exploration: 8000 (thorough 40000) program pairs (a third with one of 19 scripted openings) with colliding variables, procedures, macro keywords (incl. bundled ones) and a library name registered with different contents per instance; B's per-form outcomes must not depend on A, instance creation must always succeed.",
          "Trusted: nothing beyond the driver (the oracle is the interpreter itself run alone).",
          "DESIGN.md §5 C19"),
  "C18": ("exhaustive strings over a 10-character alphabet against a reference completeness predicate (hook H2); REPL sessions over a pipe with random line splittings (metamorphic) against in-process evaluation",
